@@ -44,7 +44,7 @@ def gen_world(rng, npels=None, fault_rate=None):
     comps = [0xE500, 0x1000, 0x2C00, 0x0A0B, 0xABCD, 0x0100, 0x3100]
     targets = [(c, rng.choice(comps)) for c in creators for _ in range(rng.randint(1, 2))]
     if rng.random() < 0.5:
-        targets.append(("M", 0x2C00))            # shipped I/O drawer plugin (real code)
+        targets += [("M", 0x2C00)] * 2           # shipped I/O drawer plugin (real code)
     if rng.random() < 0.15:
         targets.append(("O", 0xE500))            # shipped hw-diags plugin (real code)
     if rng.random() < 0.6:
@@ -67,6 +67,16 @@ def gen_world(rng, npels=None, fault_rate=None):
             pool = ["%s%s%s" % (h, cc, rng.choice(rcs)) for h in ("BD", "BC", "11", "BD") for cc in rng.sample(["8D", "20", "75", "E5"], 2)]
         r = pelgen.gen_pel(rng, eid=eid, creator=c, ud_targets=targets, max_sections=7, want_class="serviceable",
                            refcode_pool=pool)
+        # sections for the shipped I/O drawer plugin carry well-formed trace buffers / ilog entries most of the time
+        for sec in r["sections"]:
+            if sec["kind"] in ("ud", "ed") and ud_module(pelgen.section_creator(r, sec), sec["comp"]) == "udparsers.m2c00.m2c00":
+                if rng.random() < 0.6:
+                    sec["subtype"] = rng.choice([72, 73, 84, 84])
+                    sec["ver"] = rng.choice([1, 1, 2, 2, 3, 0])
+                if sec["subtype"] == 84 and rng.random() < 0.8:
+                    sec["payload"] = common.gen_trace_payload(rng, sec["ver"] if sec["ver"] in (1, 2) else 1)
+                elif sec["subtype"] == 73 and rng.random() < 0.8:
+                    sec["payload"] = common.gen_ilog_payload(rng)
         pels.append({"name": common.bmc_name(r), "recipe": r})
     fr = fault_rate if fault_rate is not None else rng.choice([0, 1, 1, 2, 3])
     ud_w = {"ok": 8, "raise": fr, "none": fr, "importerror": fr, "keyerror": fr // 2, "modulenotfound": fr // 2, "raise_noargs": (fr + 1) // 2}
